@@ -28,19 +28,20 @@ Lemma ext_incentive_nonneg cf lk : 0 <= ext_incentive cf lk.
 Proof. unfold ext_incentive. destruct (Z.gtb_spec (keeper_incentive cf (l_fee lk)) 0); lia. Qed.
 
 (* the settlement step *)
-Lemma settle_spec cf lk L xf L' xf' : 0 <= l_fee lk ->
-  settle cf lk L xf = Ok (L', xf') ->
+Lemma settle_spec cf lk L xf nf L' xf' nf' : 0 <= l_fee lk ->
+  settle cf lk L xf nf = Ok (L', xf', nf') ->
   exists ki pen, 0 <= ki /\ 0 <= pen /\ ki + pen = l_fee lk /\
+  (l_init lk = 0 -> l_intk lk = false -> ki = 0) /\
   forall k,
-    (l_init lk = 2 -> ki = ext_incentive cf lk /\ xf' = xf + pen /\
+    (l_init lk = 2 -> ki = ext_incentive cf lk /\ xf' = xf + pen /\ nf' = nf /\
                       L' k = L k + delta k AUC_D INI_D ki + delta k AUC_D INI_D (l_target lk - l_fee lk)) /\
-    (l_init lk = 0 -> xf' = xf /\ L' k = L k + delta k AUC_D KEE_D ki + delta k AUC_D COL_D pen) /\
-    (l_init lk <> 2 -> l_init lk <> 0 -> xf' = xf /\ L' k = L k + delta k AUC_D POOL_D (l_target lk)).
+    (l_init lk = 0 -> xf' = xf /\ nf' = nf + pen /\ L' k = L k + delta k AUC_D KEE_D ki + delta k AUC_D COL_D pen) /\
+    (l_init lk <> 2 -> l_init lk <> 0 -> xf' = xf /\ nf' = nf /\ L' k = L k + delta k AUC_D POOL_D (l_target lk)).
 Proof.
   intros Hfee H. unfold settle in H.
   destruct (Z.eqb_spec (l_init lk) 2) as [E2|E2].
   - destruct (Z.ltb_spec (l_target lk - l_fee lk) 0); [discriminate|].
-    apply obind_ok in H as ([L1 pen] & H1 & H). apply obind_ok in H as (L2 & HL2 & H). injection H as <- <-.
+    apply obind_ok in H as ([L1 pen] & H1 & H). apply obind_ok in H as (L2 & HL2 & H). injection H as <- <- <-.
     apply oerr_ok in HL2.
     assert (Hk : 0 <= pen /\ ext_incentive cf lk + pen = l_fee lk /\
                  forall k, L1 k = L k + delta k AUC_D INI_D (ext_incentive cf lk)).
@@ -50,40 +51,50 @@ Proof.
         repeat split; try lia. intros k. apply send_delta with (k := k) in Hs. exact Hs.
       - injection H1 as <- <-. repeat split; try lia. intros k. rewrite delta_zero. lia. }
     destruct Hk as (Hpen & Hsum & HL1). pose proof (ext_incentive_nonneg cf lk).
-    exists (ext_incentive cf lk), pen. split; [lia|]. split; [lia|]. split; [lia|]. intros k.
-    split; [intros _|split; intros; lia]. split; [reflexivity|]. split; [reflexivity|].
+    exists (ext_incentive cf lk), pen. split; [lia|]. split; [lia|]. split; [lia|]. split; [intros; lia|]. intros k.
+    split; [intros _|split; intros; lia]. split; [reflexivity|]. split; [reflexivity|]. split; [reflexivity|].
     apply send_delta with (k := k) in HL2. rewrite HL2, HL1. lia.
   - destruct (Z.eqb_spec (l_init lk) 0) as [E0|E0].
     + apply obind_ok in H as ([L1 pen] & H1 & H). apply obind_ok in H as (L2 & H2 & H).
-      destruct (Z.ltb_spec pen 0); [discriminate|]. injection H as <- <-.
-      assert (Hk : exists ki, 0 <= ki /\ ki + pen = l_fee lk /\ forall k, L1 k = L k + delta k AUC_D KEE_D ki).
+      destruct (Z.ltb_spec pen 0); [discriminate|]. injection H as <- <- <-.
+      assert (Hk : exists ki, 0 <= ki /\ ki + pen = l_fee lk /\ (l_intk lk = false -> ki = 0) /\
+                              forall k, L1 k = L k + delta k AUC_D KEE_D ki).
       { destruct (l_intk lk).
         - destruct (Z.gtb_spec (keeper_incentive cf (l_fee lk)) 0).
           + destruct (Z.ltb_spec (l_fee lk - keeper_incentive cf (l_fee lk)) 0); [discriminate|].
             apply obind_ok in H1 as (Lx & Hs & H1). injection H1 as <- <-. apply oerr_ok in Hs.
-            exists (keeper_incentive cf (l_fee lk)). repeat split; try lia. intros k. apply send_delta with (k := k) in Hs. exact Hs.
+            exists (keeper_incentive cf (l_fee lk)). repeat split; try lia; try discriminate. intros k. apply send_delta with (k := k) in Hs. exact Hs.
           + injection H1 as <- <-. exists 0. repeat split; try lia. intros k. rewrite delta_zero. lia.
         - injection H1 as <- <-. exists 0. repeat split; try lia. intros k. rewrite delta_zero. lia. }
-      destruct Hk as (ki & Hki & Hsum & HL1).
-      exists ki, pen. split; [lia|]. split; [lia|]. split; [lia|]. intros k.
-      split; [intros; lia|]. split; [intros _|intros; lia]. split; [reflexivity|].
+      destruct Hk as (ki & Hki & Hsum & Hnk & HL1).
+      exists ki, pen. split; [lia|]. split; [lia|]. split; [lia|]. split; [intros _; exact Hnk|]. intros k.
+      split; [intros; lia|]. split; [intros _|intros; lia]. split; [reflexivity|]. split; [reflexivity|].
       assert (Hp0 : 0 <= pen) by lia.
       rewrite (gsend_delta _ _ _ _ _ _ Hp0 H2 k), HL1. lia.
-    + apply obind_ok in H as (L1 & H1 & H). injection H as <- <-. apply oerr_ok in H1.
-      exists 0, (l_fee lk). split; [lia|]. split; [lia|]. split; [lia|]. intros k.
-      split; [intros; lia|]. split; [intros; lia|]. intros _ _. split; [reflexivity|].
+    + apply obind_ok in H as (L1 & H1 & H). destruct (l_stuck lk); [discriminate|]. injection H as <- <- <-. apply oerr_ok in H1.
+      exists 0, (l_fee lk). split; [lia|]. split; [lia|]. split; [lia|]. split; [intros; lia|]. intros k.
+      split; [intros; lia|]. split; [intros; lia|]. intros _ _. split; [reflexivity|]. split; [reflexivity|].
       apply send_delta with (k := k) in H1. exact H1.
 Qed.
 
+(* the bidder's payment step *)
+Lemma pay_delta auto L who x L' : 0 <= x -> pay auto L who x = Ok L' ->
+  forall k, L' k = L k + (if auto then 0 else delta k (BID_D who) AUC_D x).
+Proof.
+  intros Hx H k. unfold pay in H. destruct auto.
+  - injection H as <-. lia.
+  - exact (gsend_delta _ _ _ _ _ _ Hx H k).
+Qed.
+
 (* the closing bid: every account, as a sum of transfers *)
-Lemma close_ledger cf lk a s who amt0 wd twa s' r :
+Lemma close_ledger_gen auto cf lk a s who amt0 wd twa s' r :
   good_cfg cf lk -> good_auction cf lk a -> 0 <= twa < 9223372036854775808 -> 0 <= l_fee lk ->
-  place_bid_core cf lk a s who amt0 wd twa = Ok (s', None, r) ->
-  exists ki pen, 0 <= ki /\ 0 <= pen /\ ki + pen = l_fee lk /\
+  place_bid_gen auto cf lk a s who amt0 wd twa = Ok (s', None, r) ->
+  exists ki pen, 0 <= ki /\ 0 <= pen /\ ki + pen = l_fee lk /\ (l_init lk = 0 -> l_intk lk = false -> ki = 0) /\
   forall k,
     led s' k = led s k
       + delta k LIQ_D AUC_D (r_topup r)
-      + delta k (BID_D who) AUC_D (r_paid r)
+      + (if auto then 0 else delta k (BID_D who) AUC_D (r_paid r))
       + delta k AUC_C (BID_C who) (r_recv r)
       + (if l_init lk =? 0 then delta k AUC_D BRN_D (l_target lk - l_fee lk) else 0)
       + delta k AUC_C OWN_C (a_coll a - r_recv r)
@@ -91,11 +102,12 @@ Lemma close_ledger cf lk a s who amt0 wd twa s' r :
          else if l_init lk =? 0 then delta k AUC_D KEE_D ki + delta k AUC_D COL_D pen
          else delta k AUC_D POOL_D (l_target lk)) /\
     xfee s' = xfee s + (if l_init lk =? 2 then pen else 0) /\
+    nfee s' = nfee s + (if l_init lk =? 0 then pen else 0) /\
     (l_init lk = 2 -> ki = ext_incentive cf lk).
 Proof.
   intros GC GA Htwa Hfee H.
-  pose proof (place_bid_amounts _ _ _ _ _ _ _ _ _ _ _ GC GA Htwa H) as (Hpaid & Hrecv & _ & Hne & He & _).
-  unfold place_bid_core in H.
+  pose proof (place_bid_amounts_gen _ _ _ _ _ _ _ _ _ _ _ _ GC GA Htwa H) as (Hpaid & Hrecv & _ & Hne & He & _).
+  unfold place_bid_gen in H.
   destruct (Z.leb_spec amt0 0); [discriminate|]. destruct wd; [discriminate|].
   apply obind_ok in H as (q & _ & H). apply obind_ok in H as (qb & _ & H).
   set (exh := negb (q + qb <=? a_coll a)) in *.
@@ -108,25 +120,26 @@ Proof.
   apply obind_ok in H as (L2 & H2 & H). apply obind_ok in H as (L3 & H3 & H).
   apply obind_ok in H as (L4 & H4 & H). apply obind_ok in H as (L5 & H5 & H).
   destruct ((tot1 <? 0) || (amt1 <? 0)) eqn:Hneg; [discriminate|].
-  apply obind_ok in H as ([L6 xf] & H6 & H). injection H as <- <-. cbn in *.
+  apply obind_ok in H as ([[L6 xf] nf] & H6 & H). injection H as <- <-.
+  cbn [led xfee nfee rsv r_paid r_recv r_topup r_closed r_exh r_bonus] in *.
   (* the reserve step *)
-  assert (H1 : xfee s1 = xfee s /\ forall k, led s1 k = led s k + delta k LIQ_D AUC_D topup).
+  assert (H1 : xfee s1 = xfee s /\ nfee s1 = nfee s /\ forall k, led s1 k = led s k + delta k LIQ_D AUC_D topup).
   { destruct exh.
     - apply obind_ok in Hx as (dal & _ & Hx).
       destruct (dal <? 0); [discriminate|]. destruct (a_debt a - dal <? 0); [discriminate|].
       destruct (rsv s) as [rv|]; [|discriminate].
       destruct (rv - (a_debt a - dal) <? 0); [discriminate|].
-      apply obind_ok in Hx as (L1 & HL1 & Hx). injection Hx as _ _ <- <-. cbn. split; [reflexivity|]. intros k.
+      apply obind_ok in Hx as (L1 & HL1 & Hx). injection Hx as _ _ <- <-. cbn. split; [reflexivity|]. split; [reflexivity|]. intros k.
       destruct (_ >? 0) eqn:Hg.
       + apply oerr_ok in HL1. apply send_delta with (k := k) in HL1. exact HL1.
       + injection HL1 as <-. assert (a_debt a - dal = 0) by lia. replace (a_debt a - dal) with 0. rewrite delta_zero. lia.
-    - injection Hx as _ _ <- <-. split; [reflexivity|]. intros k. rewrite delta_zero. lia. }
-  destruct H1 as (Hxf1 & H1).
-  destruct (settle_spec _ _ _ _ _ _ Hfee H6) as (ki & pen & Hki & Hpen & Hsum & H6').
-  exists ki, pen. split; [lia|]. split; [lia|]. split; [lia|]. intros k.
+    - injection Hx as _ _ <- <-. split; [reflexivity|]. split; [reflexivity|]. intros k. rewrite delta_zero. lia. }
+  destruct H1 as (Hxf1 & Hnf1 & H1).
+  destruct (settle_spec _ _ _ _ _ _ _ _ Hfee H6) as (ki & pen & Hki & Hpen & Hsum & Hnk & H6').
+  exists ki, pen. split; [lia|]. split; [lia|]. split; [lia|]. split; [exact Hnk|]. intros k.
   specialize (H6' k) as (S2 & S0 & S1).
   assert (Ha1 : 0 <= amt1) by lia. assert (Ht1 : 0 <= tot1) by lia. assert (Ho1 : 0 <= a_coll a - tot1) by lia.
-  pose proof (gsend_delta _ _ _ _ _ _ Ha1 H2 k) as E2.
+  pose proof (pay_delta _ _ _ _ _ Ha1 H2 k) as E2.
   pose proof (gsend_delta _ _ _ _ _ _ Ht1 H3 k) as E3.
   pose proof (gsend_delta _ _ _ _ _ _ Ho1 H5 k) as E5.
   assert (E4 : L4 k = L3 k + (if l_init lk =? 0 then delta k AUC_D BRN_D (l_target lk - l_fee lk) else 0)).
@@ -134,14 +147,16 @@ Proof.
     - destruct (Z.ltb_spec (l_target lk - l_fee lk) 0) as [|Hb0]; [discriminate|].
       exact (gsend_delta _ _ _ _ _ _ Hb0 H4 k).
     - injection H4 as <-. lia. }
-  rewrite Hxf1 in *.
+  rewrite Hxf1, Hnf1 in *.
   destruct (Z.eqb_spec (l_init lk) 2) as [I2|I2].
-  - destruct (S2 I2) as (K0 & Hx2 & HL6). split; [|split; [lia|auto]].
+  - destruct (S2 I2) as (K0 & Hx2 & Hn2 & HL6).
+    assert (I0 : (l_init lk =? 0) = false) by lia.
+    split; [|split; [lia|split; [rewrite I0; lia|auto]]].
     rewrite HL6, E5, E4, E3, E2, H1. lia.
   - destruct (Z.eqb_spec (l_init lk) 0) as [I0|I0].
-    + destruct (S0 I0) as (Hx2 & HL6). split; [|split; [lia|intros; lia]].
+    + destruct (S0 I0) as (Hx2 & Hn2 & HL6). split; [|split; [lia|split; [lia|intros; lia]]].
       rewrite HL6, E5, E4, E3, E2, H1. lia.
-    + destruct (S1 I2 I0) as (Hx2 & HL6). split; [|split; [lia|intros; lia]].
+    + destruct (S1 I2 I0) as (Hx2 & Hn2 & HL6). split; [|split; [lia|split; [lia|intros; lia]]].
       rewrite HL6, E5, E4, E3, E2, H1. lia.
 Qed.
 
@@ -149,20 +164,20 @@ Ltac eqbs := repeat match goal with |- context [?a =? ?b] => destruct (Z.eqb_spe
 
 (* the app reserve: touched only by the collateral-exhausted close, debited exactly the shortfall,
    and only when it covers it (repaired WithdrawAppReserveFundsFn) *)
-Lemma reserve_spec cf lk a s who amt wd twa s' a' r :
-  place_bid_core cf lk a s who amt wd twa = Ok (s', a', r) ->
+Lemma reserve_spec_gen auto cf lk a s who amt wd twa s' a' r :
+  place_bid_gen auto cf lk a s who amt wd twa = Ok (s', a', r) ->
   (r_exh r = false -> r_topup r = 0 /\ rsv s' = rsv s) /\
   (r_exh r = true -> exists rv, rsv s = Some rv /\ rsv s' = Some (rv - r_topup r) /\ 0 <= rv - r_topup r).
 Proof.
-  intros E. split; [exact (proj1 (topup_zero _ _ _ _ _ _ _ _ _ _ _ E))|].
-  unfold place_bid_core in E.
+  intros E. split; [exact (proj1 (topup_zero_gen _ _ _ _ _ _ _ _ _ _ _ _ E))|].
+  unfold place_bid_gen in E.
   destruct (amt <=? 0); [discriminate|]. destruct wd; [discriminate|].
   apply obind_ok in E as (q & _ & E). apply obind_ok in E as (qb & _ & E).
   destruct (_ || _).
   - apply obind_ok in E as ([[[? ?] ?] ?] & Hxx & E).
     apply obind_ok in E as (? & _ & E). apply obind_ok in E as (? & _ & E).
     apply obind_ok in E as (? & _ & E). apply obind_ok in E as (? & _ & E).
-    destruct ((_ <? 0) || (_ <? 0)); [discriminate|]. apply obind_ok in E as ([? ?] & _ & E).
+    destruct ((_ <? 0) || (_ <? 0)); [discriminate|]. apply obind_ok in E as ([[? ?] ?] & _ & E).
     injection E as <- <- <-. cbn. intros Hx. rewrite Hx in Hxx.
     apply obind_ok in Hxx as (dal & _ & Hxx).
     destruct (dal <? 0); [discriminate|]. destruct (a_debt a - dal <? 0); [discriminate|].
@@ -176,6 +191,12 @@ Proof.
     destruct ((_ <? 0) || (_ <? 0)); [discriminate|]. injection E as <- <- <-. cbn. discriminate.
 Qed.
 
+Lemma reserve_spec cf lk a s who amt wd twa s' a' r :
+  place_bid_core cf lk a s who amt wd twa = Ok (s', a', r) ->
+  (r_exh r = false -> r_topup r = 0 /\ rsv s' = rsv s) /\
+  (r_exh r = true -> exists rv, rsv s = Some rv /\ rsv s' = Some (rv - r_topup r) /\ 0 <= rv - r_topup r).
+Proof. exact (reserve_spec_gen false cf lk a s who amt wd twa s' a' r). Qed.
+
 (* a collateral-exhausted close against a reserve that does not cover the shortfall is not a
    successful bid (so, by [step], nothing changes) *)
 Lemma short_reserve_fails cf lk a s who amt wd twa s' a' r rv :
@@ -187,7 +208,52 @@ Qed.
 
 (* close completeness: the closing bid removes from the auction account exactly what this auction
    held (its remaining collateral; the debt collected so far), and the proceeds go to the listed
-   destinations *)
+   destinations.  An automatic bid brings no coins: what it bids is taken from the limit-bid pool that
+   the auction account already holds, so the account's debt balance falls by that much more. *)
+Lemma close_complete_gen auto cf lk a s who amt0 wd twa s' r :
+  good_cfg cf lk -> good_auction cf lk a -> 0 <= twa < 9223372036854775808 -> 0 <= l_fee lk -> 0 <= who ->
+  place_bid_gen auto cf lk a s who amt0 wd twa = Ok (s', None, r) ->
+  r_paid r + r_topup r = a_debt a /\
+  led s' AUC_C = led s AUC_C - a_coll a /\
+  led s' AUC_D - xfee s' = led s AUC_D - xfee s - (l_target lk - a_debt a) - (if auto then r_paid r else 0) /\
+  led s' OWN_C + led s' (BID_C who) = led s OWN_C + led s (BID_C who) + a_coll a /\
+  led s' (BID_D who) = led s (BID_D who) - (if auto then 0 else r_paid r) /\
+  led s' LIQ_D = led s LIQ_D - r_topup r /\
+  (l_init lk = 0 -> led s' BRN_D = led s BRN_D + (l_target lk - l_fee lk) /\
+                    led s' COL_D + led s' KEE_D = led s COL_D + led s KEE_D + l_fee lk /\ xfee s' = xfee s /\
+                    0 <= led s' COL_D - led s COL_D /\ 0 <= led s' KEE_D - led s KEE_D /\
+                    nfee s' - nfee s = led s' COL_D - led s COL_D /\
+                    (l_intk lk = false -> led s' KEE_D = led s KEE_D)) /\
+  (l_init lk = 2 -> led s' INI_D = led s INI_D + (l_target lk - l_fee lk) + ext_incentive cf lk /\
+                    xfee s' = xfee s + (l_fee lk - ext_incentive cf lk) /\ 0 <= ext_incentive cf lk <= l_fee lk /\
+                    led s' COL_D = led s COL_D /\ nfee s' = nfee s) /\
+  (l_init lk <> 0 -> l_init lk <> 2 -> led s' POOL_D = led s POOL_D + l_target lk /\ xfee s' = xfee s /\
+                    led s' COL_D = led s COL_D /\ nfee s' = nfee s).
+Proof.
+  intros GC GA Htwa Hfee Hwho H.
+  pose proof (place_bid_amounts_gen _ _ _ _ _ _ _ _ _ _ _ _ GC GA Htwa H) as (Hpaid & Hrecv & _ & Hne & He & _).
+  assert (Hsum : r_paid r + r_topup r = a_debt a).
+  { destruct (r_exh r) eqn:Hx.
+    - destruct (He eq_refl) as (_ & _ & Hsh & Htp). lia.
+    - destruct (Hne eq_refl) as (Hp & _). destruct (proj1 (topup_zero_gen _ _ _ _ _ _ _ _ _ _ _ _ H) Hx). lia. }
+  destruct (close_ledger_gen _ _ _ _ _ _ _ _ _ _ _ GC GA Htwa Hfee H) as (ki & pen & Hki & Hpen & Hkp & Hnk & HL).
+  split; [exact Hsum|].
+  pose proof (HL AUC_C) as (EC & Hxf & Hnf & Hk2). pose proof (HL AUC_D) as (ED & _).
+  pose proof (HL OWN_C) as (EO & _). pose proof (HL (BID_C who)) as (EB & _). pose proof (HL (BID_D who)) as (EBD & _).
+  pose proof (HL BRN_D) as (EBr & _). pose proof (HL COL_D) as (ECo & _). pose proof (HL KEE_D) as (EK & _).
+  pose proof (HL INI_D) as (EI & _). pose proof (HL POOL_D) as (EP & _). pose proof (HL LIQ_D) as (EL & _).
+  clear HL. unfold delta, AUC_C, AUC_D, OWN_C, COL_D, KEE_D, INI_D, NUL_D, LIQ_D, BRN_D, POOL_D, BID_C, BID_D in *.
+  split. { clear - EC Hwho. revert EC. destruct auto; eqbs. }
+  split. { clear - ED Hxf Hwho Hsum Hkp. revert ED Hxf. destruct auto; eqbs. }
+  split. { clear - EO EB Hwho. revert EO EB. destruct auto; eqbs. }
+  split. { clear - EBD Hwho. revert EBD. destruct auto; eqbs. }
+  split. { clear - EL Hwho. revert EL. destruct auto; eqbs. }
+  split. { intros I0. specialize (Hnk I0). clear - EBr ECo EK Hxf Hnf Hwho Hkp Hki Hpen Hnk I0. revert EBr ECo EK Hxf Hnf Hnk. rewrite I0.
+           destruct auto; eqbs; intros; repeat split; try lia; intros Hf; specialize (Hnk Hf); lia. }
+  split. { intros I2. rewrite <- (Hk2 I2). clear - EI ECo Hxf Hnf Hwho I2 Hkp Hki Hpen. revert EI ECo Hxf Hnf. rewrite I2. destruct auto; eqbs. }
+  intros I0 I2. clear - EP ECo Hxf Hnf Hwho I0 I2. revert EP ECo Hxf Hnf. destruct auto; eqbs.
+Qed.
+
 Lemma close_complete cf lk a s who amt0 wd twa s' r :
   good_cfg cf lk -> good_auction cf lk a -> 0 <= twa < 9223372036854775808 -> 0 <= l_fee lk -> 0 <= who ->
   place_bid_core cf lk a s who amt0 wd twa = Ok (s', None, r) ->
@@ -203,71 +269,74 @@ Lemma close_complete cf lk a s who amt0 wd twa s' r :
   (l_init lk <> 0 -> l_init lk <> 2 -> led s' POOL_D = led s POOL_D + l_target lk /\ xfee s' = xfee s).
 Proof.
   intros GC GA Htwa Hfee Hwho H.
-  pose proof (place_bid_amounts _ _ _ _ _ _ _ _ _ _ _ GC GA Htwa H) as (Hpaid & Hrecv & _ & Hne & He & _).
-  assert (Hsum : r_paid r + r_topup r = a_debt a).
-  { destruct (r_exh r) eqn:Hx.
-    - destruct (He eq_refl) as (_ & _ & Hsh & Htp). lia.
-    - destruct (Hne eq_refl) as (Hp & _). destruct (proj1 (topup_zero _ _ _ _ _ _ _ _ _ _ _ H) Hx). lia. }
-  destruct (close_ledger _ _ _ _ _ _ _ _ _ _ GC GA Htwa Hfee H) as (ki & pen & Hki & Hpen & Hkp & HL).
-  split; [exact Hsum|].
-  pose proof (HL AUC_C) as (EC & Hxf & Hk2). pose proof (HL AUC_D) as (ED & _ & _).
-  pose proof (HL OWN_C) as (EO & _ & _). pose proof (HL (BID_C who)) as (EB & _ & _).
-  pose proof (HL BRN_D) as (EBr & _ & _). pose proof (HL COL_D) as (ECo & _ & _). pose proof (HL KEE_D) as (EK & _ & _).
-  pose proof (HL INI_D) as (EI & _ & _). pose proof (HL POOL_D) as (EP & _ & _). pose proof (HL LIQ_D) as (EL & _ & _).
-  clear HL. unfold delta, AUC_C, AUC_D, OWN_C, COL_D, KEE_D, INI_D, NUL_D, LIQ_D, BRN_D, POOL_D, BID_C, BID_D in *.
-  split. { clear - EC Hwho. revert EC. eqbs. }
-  split. { clear - ED Hxf Hwho Hsum Hkp. revert ED Hxf. eqbs. }
-  split. { clear - EO EB Hwho. revert EO EB. eqbs. }
-  split. { clear - EL Hwho. revert EL. eqbs. }
-  split. { intros I0. clear - EBr ECo EK Hxf Hwho Hkp I0. revert EBr ECo EK Hxf. rewrite I0. eqbs. }
-  split. { intros I2. rewrite <- (Hk2 I2). clear - EI Hxf Hwho I2 Hkp Hki Hpen. revert EI Hxf. rewrite I2. eqbs. }
-  intros I0 I2. clear - EP Hxf Hwho I0 I2. revert EP Hxf. eqbs.
+  destruct (close_complete_gen false _ _ _ _ _ _ _ _ _ _ GC GA Htwa Hfee Hwho H) as (H1 & H2 & H3 & H4 & _ & H5 & H6 & H7 & H8).
+  split; [exact H1|]. split; [exact H2|]. split; [cbn [negb] in H3; lia|]. split; [exact H4|]. split; [exact H5|].
+  split; [intros I0; destruct (H6 I0) as (A & B & C & _); auto|].
+  split; [intros I2; destruct (H7 I2) as (A & B & C & _); auto|].
+  intros I0 I2. destruct (H8 I0 I2) as (A & B & _). auto.
 Qed.
 
-(* a partial bid: only the bidder and the auction account move; reserve and fee book untouched *)
-Lemma partial_ledger cf lk a s who amt0 wd twa s' b r :
+(* a partial bid: only the bidder and the auction account move; reserve and fee books untouched *)
+Lemma partial_ledger_gen auto cf lk a s who amt0 wd twa s' b r :
   good_cfg cf lk -> good_auction cf lk a -> 0 <= twa < 9223372036854775808 ->
-  place_bid_core cf lk a s who amt0 wd twa = Ok (s', Some b, r) ->
-  xfee s' = xfee s /\ rsv s' = rsv s /\
-  forall k, led s' k = led s k + delta k (BID_D who) AUC_D (r_paid r) + delta k AUC_C (BID_C who) (r_recv r).
+  place_bid_gen auto cf lk a s who amt0 wd twa = Ok (s', Some b, r) ->
+  xfee s' = xfee s /\ rsv s' = rsv s /\ nfee s' = nfee s /\
+  forall k, led s' k = led s k + (if auto then 0 else delta k (BID_D who) AUC_D (r_paid r)) + delta k AUC_C (BID_C who) (r_recv r).
 Proof.
   intros GC GA Htwa H.
-  pose proof (place_bid_amounts _ _ _ _ _ _ _ _ _ _ _ GC GA Htwa H) as (Hpaid & Hrecv & _).
-  unfold place_bid_core in H.
+  pose proof (place_bid_amounts_gen _ _ _ _ _ _ _ _ _ _ _ _ GC GA Htwa H) as (Hpaid & Hrecv & _).
+  unfold place_bid_gen in H.
   destruct (Z.leb_spec amt0 0); [discriminate|]. destruct wd; [discriminate|].
   apply obind_ok in H as (q & _ & H). apply obind_ok in H as (qb & _ & H).
   destruct (_ || _) eqn:Hbr.
   { apply obind_ok in H as ([[[? ?] ?] ?] & _ & H).
     apply obind_ok in H as (? & _ & H). apply obind_ok in H as (? & _ & H).
     apply obind_ok in H as (? & _ & H). apply obind_ok in H as (? & _ & H).
-    destruct ((_ <? 0) || (_ <? 0)); [discriminate|]. apply obind_ok in H as ([? ?] & _ & H). discriminate. }
+    destruct ((_ <? 0) || (_ <? 0)); [discriminate|]. apply obind_ok in H as ([[? ?] ?] & _ & H). discriminate. }
   apply obind_ok in H as (q' & _ & H). apply obind_ok in H as (usd & _ & H).
   destruct (negb (_ >? dec_of_int _)); [discriminate|]. apply obind_ok in H as (ratio & _ & H).
   apply obind_ok in H as (qb' & _ & H). apply obind_ok in H as (L2 & H2 & H). apply obind_ok in H as (L3 & H3 & H).
-  destruct ((_ <? 0) || (_ <? 0)); [discriminate|]. injection H as <- _ <-. cbn in *.
-  split; [reflexivity|]. split; [reflexivity|]. intros k.
-  rewrite (gsend_delta _ _ _ _ _ _ (proj1 Hrecv) H3 k), (gsend_delta _ _ _ _ _ _ (proj1 Hpaid) H2 k). lia.
+  destruct ((_ <? 0) || (_ <? 0)); [discriminate|]. injection H as <- _ <-.
+  cbn [led xfee nfee rsv r_paid r_recv r_topup r_closed r_exh r_bonus] in *.
+  split; [reflexivity|]. split; [reflexivity|]. split; [reflexivity|]. intros k.
+  rewrite (gsend_delta _ _ _ _ _ _ (proj1 Hrecv) H3 k), (pay_delta _ _ _ _ _ (proj1 Hpaid) H2 k). lia.
+Qed.
+
+Lemma partial_ledger cf lk a s who amt0 wd twa s' b r :
+  good_cfg cf lk -> good_auction cf lk a -> 0 <= twa < 9223372036854775808 ->
+  place_bid_core cf lk a s who amt0 wd twa = Ok (s', Some b, r) ->
+  xfee s' = xfee s /\ rsv s' = rsv s /\
+  forall k, led s' k = led s k + delta k (BID_D who) AUC_D (r_paid r) + delta k AUC_C (BID_C who) (r_recv r).
+Proof.
+  intros GC GA Htwa H. destruct (partial_ledger_gen false _ _ _ _ _ _ _ _ _ _ _ GC GA Htwa H) as (A & B & _ & C). auto.
 Qed.
 
 (* the reserve record stays non-negative and backed by the liquidation module's balance *)
-Lemma reserve_backed cf lk a s who amt0 wd twa s' a' r rv :
+Lemma reserve_backed_gen auto cf lk a s who amt0 wd twa s' a' r rv :
   good_cfg cf lk -> good_auction cf lk a -> 0 <= twa < 9223372036854775808 -> 0 <= l_fee lk -> 0 <= who ->
-  place_bid_core cf lk a s who amt0 wd twa = Ok (s', a', r) ->
+  place_bid_gen auto cf lk a s who amt0 wd twa = Ok (s', a', r) ->
   rsv s = Some rv -> 0 <= rv <= led s LIQ_D ->
   exists rv', rsv s' = Some rv' /\ 0 <= rv' <= led s' LIQ_D /\ rv - rv' = led s LIQ_D - led s' LIQ_D.
 Proof.
   intros GC GA Htwa Hfee Hwho H Hr Hb.
-  destruct (reserve_spec _ _ _ _ _ _ _ _ _ _ _ H) as (Hn & Hx).
+  destruct (reserve_spec_gen _ _ _ _ _ _ _ _ _ _ _ _ H) as (Hn & Hx).
   destruct a' as [b|].
-  - destruct (partial_ledger _ _ _ _ _ _ _ _ _ _ _ GC GA Htwa H) as (_ & Hrs & HL).
+  - destruct (partial_ledger_gen _ _ _ _ _ _ _ _ _ _ _ _ GC GA Htwa H) as (_ & Hrs & _ & HL).
     exists rv. rewrite Hrs. split; [exact Hr|]. specialize (HL LIQ_D).
-    unfold delta, LIQ_D, AUC_C, AUC_D, BID_C, BID_D in *. revert HL. eqbs.
-  - destruct (close_complete _ _ _ _ _ _ _ _ _ _ GC GA Htwa Hfee Hwho H) as (_ & _ & _ & _ & HL & _).
+    unfold delta, LIQ_D, AUC_C, AUC_D, BID_C, BID_D in *. revert HL. destruct auto; eqbs.
+  - destruct (close_complete_gen _ _ _ _ _ _ _ _ _ _ _ GC GA Htwa Hfee Hwho H) as (_ & _ & _ & _ & _ & HL & _).
     destruct (r_exh r) eqn:E.
     + destruct (Hx eq_refl) as (rv0 & Hr0 & Hr' & Hge). rewrite Hr in Hr0. injection Hr0 as <-.
       exists (rv - r_topup r). split; [exact Hr'|]. lia.
     + destruct (Hn eq_refl) as (Ht & Hrs). exists rv. rewrite Hrs. split; [exact Hr|]. lia.
 Qed.
+
+Lemma reserve_backed cf lk a s who amt0 wd twa s' a' r rv :
+  good_cfg cf lk -> good_auction cf lk a -> 0 <= twa < 9223372036854775808 -> 0 <= l_fee lk -> 0 <= who ->
+  place_bid_core cf lk a s who amt0 wd twa = Ok (s', a', r) ->
+  rsv s = Some rv -> 0 <= rv <= led s LIQ_D ->
+  exists rv', rsv s' = Some rv' /\ 0 <= rv' <= led s' LIQ_D /\ rv - rv' = led s LIQ_D - led s' LIQ_D.
+Proof. exact (reserve_backed_gen false cf lk a s who amt0 wd twa s' a' r rv). Qed.
 
 (* ------------------------------------------------------------------------------------------ *)
 (* regression witnesses of the two repaired defects (the states of the harness corpus cases)   *)
@@ -276,19 +345,20 @@ Qed.
    collateral left against 9143315 debt, reserve 1000, closing bid at a price where the collateral
    covers only 8703243 *)
 Definition w_cf : acfg := mkCfg 1500000000000000000 650000000000000000 1000 0 0 1000000 1000000.
-Definition w_lk : locked := mkLk 4890000 9144300 831300 831300 2 false false.
+Definition w_lk : locked := mkLk 4890000 9144300 831300 831300 2 false false false.
 Definition w_au : auction := mkAu 4889641 9143315 831300 1949947497374868743437172 3000000000000000000000000
                                   2380000000000000000000000 1000000000000000000000000 0 1000.
 Definition w_led (liq : Z) : ledger := fun k => if k =? 0 then 4889641 else if k =? 1 then 985 else if k =? 7 then liq
                                       else if k =? 11 then 4611686018427387798 else 0.
-Definition w_s (reserve : Z) : bstate := mkS (w_led reserve) (Some reserve) 0.
+Definition w_s (reserve : Z) : bstate := mkS (w_led reserve) (Some reserve) 0 0.
+Definition nobook : book := fun _ _ => 0.
 
 (* before the repair this bid succeeded with nothing transferred, reserve record -439072 and the
    auction account 440072 short; now it is rejected and the life is unchanged *)
 Lemma reserve_short_rejected :
   place_bid_core w_cf w_lk w_au (w_s 1000) 0 27429945 false 1000000 = Err 3 /\
-  forall p rc t, step w_cf w_lk (mkLife (w_s 1000) (Some w_au) p rc t) (Bid 0 27429945 false 1000000)
-                 = mkLife (w_s 1000) (Some w_au) p rc t.
+  forall p rc t, step w_cf w_lk (mkLife (w_s 1000) (Some w_au) p rc t nobook 0) (Bid 0 27429945 false 1000000)
+                 = mkLife (w_s 1000) (Some w_au) p rc t nobook 0.
 Proof.
   assert (E : place_bid_core w_cf w_lk w_au (w_s 1000) 0 27429945 false 1000000 = Err 3) by (vm_compute; reflexivity).
   split; [exact E|]. intros. unfold step. cbn [f_a f_s]. rewrite E. reflexivity.
@@ -308,12 +378,12 @@ Qed.
 (* C10-F3 (harness corpus case 0 = seed 1 case 0 of the first build): external auction of an app
    with KeeeperIncentive 0.1; before the repair every closing bid panicked *)
 Definition x_cf : acfg := mkCfg 1500000000000000000 700000000000000000 3600 1000000 100000000000000000 1000000 1000000.
-Definition x_lk : locked := mkLk 568000 493592 44872 0 2 false false.
+Definition x_lk : locked := mkLk 568000 493592 44872 0 2 false false false.
 Definition x_au : auction := mkAu 568000 493592 0 1500000000000000000000000 1500000000000000000000000
                                   1000000000000000000000000 1000000000000000000000000 7201 10801.
 Definition x_led : ledger := fun k => if k =? 0 then 568000 else if k =? 7 then 1125899906842624
                                       else if k =? 11 then 4611686018427387904 else 0.
-Definition x_s : bstate := mkS x_led (Some 1125899906842624) 0.
+Definition x_s : bstate := mkS x_led (Some 1125899906842624) 0 0.
 
 Lemma external_closes :
   exists s' r, place_bid_core x_cf x_lk x_au x_s 0 493593 false 1000000 = Ok (s', None, r) /\
